@@ -53,7 +53,8 @@ class Summ:
     def _substituted(self, loc):
         """will canon() replace uses of this local by its initialiser?"""
         if not self.subst:
-            return False
+            d = self.env.decls.get(loc)
+            return bool(d is not None and self.env.is_alias(d))
         saved = self.env.assigned
         self.env.assigned = self.mutated
         try:
@@ -172,6 +173,8 @@ class Summ:
             for d in s.get('c') or ():
                 if d.get('k') != 'VarDecl':
                     continue
+                if not self.subst and self.env.is_alias(d):
+                    continue        # only a name for its initialiser: substituted into its uses by canon()
                 if d['loc'] in self.mutated or not isinstance(d.get('init'), dict) or d.get('bindings') or not self.subst:
                     init = self.term(d['init']) if isinstance(d.get('init'), dict) else None
                     out.append(('decl', self.rw(self.name_of(d)), init) if not d.get('bindings') else ('bind', len(d['bindings']), init))
